@@ -1,7 +1,7 @@
 (* Property C03: binary-format readers are safe on arbitrary and truncated input (CCP4 map set-up, gzip buffer
    growth, memory stream). Statements only; proofs live in Map/C03Proofs.v.
    The snapshot's code is kept in the model as *_orig and REFUTED; the repaired code (fix: commits) is proved safe. *)
-From GV Require Import Map.GridIndex Map.GridOps Map.Setup Map.SetupProofs Map.Stream Map.GzGrow Map.C03Proofs.
+From GV Require Import Map.GridIndex Map.GridOps Map.Setup Map.MapSg Map.SetupProofs Map.Stream Map.GzGrow Map.C03Proofs Map.SymmSafe.
 Local Open Scope Z_scope.
 
 (* --- the snapshot: headers that pass every test the reader makes (MAPC/MAPR/MAPS a permutation, supported mode,
@@ -27,6 +27,16 @@ Theorem C03_ccp4_setup_in_bounds : forall h g dflt smode,
   Z.of_nat (length (g_data g)) = point_count (g_n g) -> safe (setup_core h g dflt smode).
 Proof. exact ccp4_setup_in_bounds. Qed.
 Print Assumptions C03_ccp4_setup_in_bounds.
+
+(* --- the symmetry expansion that follows in Full mode (symmetrize_using_ops with any reducer): for every tabulated
+   setting and every grid accepted by check_grid_factors every mate index stays inside the data/visited buffers *)
+Theorem C03_symmetry_expansion_in_bounds : forall r, In r sg_table ->
+  forall nu nv nw, nu > 0 -> nv > 0 -> nw > 0 -> nu * nv * nw < two64 ->
+  check_grid_factors (row_gops r) nu nv nw = true ->
+  forall func data, Z.of_nat (length data) = nu * nv * nw ->
+  safe (symmetrize_using_ops func nu nv nw (scaled_ops_except_id (sg_number r) (row_gops r) nu nv nw) data).
+Proof. exact symmetrize_in_bounds. Qed.
+Print Assumptions C03_symmetry_expansion_in_bounds.
 
 (* --- gzip growth loop. Snapshot: with a size estimate of 0 and data present the loop never ends, whatever budget *)
 Theorem C03_gz_growth_orig_refuted : exists est total, 0 <= est /\ 0 < total /\
